@@ -142,6 +142,11 @@ def run_harnesses(names, tier='quick'):
                     out['obligations'] += 1
                     if r['status'] == 'SUCCESSFUL':
                         out['discharged'] += 1
+                    elif r['status'] == 'FAILED' and any('not currently supported by Kani' in x for x in r.get('failed', [])):
+                        # the harness reaches a construct Kani cannot model on this tree (e.g. a foreign call): every other failed
+                        # check of the run is a consequence - undecided, never an alarm
+                        entry['result'] = 'undecided'
+                        out['undecided'].append('kx/%s: construct unsupported by Kani (%s)' % (h['name'], '; '.join(x for x in r['failed'] if 'supported' in x)[:200]))
                     elif r['status'] == 'FAILED' and r.get('failed') and all('unwinding assertion' in x for x in r['failed']):
                         # only the unwinding bound of the harness was exceeded: the harness does not cover this tree - undecided, never an alarm
                         entry['result'] = 'undecided'
